@@ -141,7 +141,7 @@ def run(spec, keep_tmp=False, sample=None):
         run_.spec_preexisting, run_.listing_at_result = {}, {}
         run_.stream_bytes_read = [0]
         ex = env.execs
-        cfg = env.config
+        cfg = getattr(run_, 'requested', None) or env.config     # the limits the user asked for
         if len(ex) == 3:
             run_.executors = [
                 ('request', ex[0], cfg.max_request_queue_size + cfg.max_in_memory_upload_chunks
